@@ -624,6 +624,7 @@ class JSONWriter(GenericWriter):
 
         self.encoder = fo
         self.encoder.configure(self.schema, self._named_schemas)
+        self._has_records = False
 
     def write(self, record):
         if self.validate_fn:
@@ -633,9 +634,13 @@ class JSONWriter(GenericWriter):
         write_data(
             self.encoder, record, self.schema, self._named_schemas, "", self.options
         )
+        self._has_records = True
 
     def flush(self):
-        self.encoder.flush()
+        # Without a record the encoder's grammar has not been entered and there
+        # is nothing to emit
+        if self._has_records:
+            self.encoder.flush()
 
 
 def writer(
